@@ -47,9 +47,36 @@ type EProg struct {
 	Id    int      `json:"id"`
 }
 
-type effRec struct{ lg []int }
+type effRec struct {
+	lg     []int
+	pulled int // elements pulled from the counting source of FoldM / Traverse (-1: no such source in this program)
+	srcId  int // callback id invoked once per pulled element
+}
 
 func (r *effRec) log(id int) { r.lg = append(r.lg, id) }
+
+// src is the element source of FoldM / Traverse: it counts what is pulled, so that a fold that keeps draining its source
+// after the first failure is visible (the step function is not called again, the result is the same)
+func (r *effRec) src(xs []int, stepId int) fp.Iterator[int] {
+	r.pulled, r.srcId = 0, stepId
+	i := 0
+	return fp.MakeIterator(func() bool { return i < len(xs) }, func() int {
+		v := xs[i]
+		i++
+		r.pulled++
+		return v
+	})
+}
+
+func (r *effRec) stepCalls() int {
+	n := 0
+	for _, id := range r.lg {
+		if id == r.srcId {
+			n++
+		}
+	}
+	return n
+}
 
 func tv(v []int) TV {
 	if v == nil {
@@ -174,7 +201,7 @@ func effRun(out *Out, monad string, p *EProg) {
 	cj, _ := json.Marshal(EffCase{Kind: "prog", Monad: monad, Prog: p})
 	out.Ev("Init", "monad", monad, "prog", p.tla(), "case", string(cj))
 	out.w.Flush() // a fatal stack overflow cannot be recovered: the case that was running must be on disk
-	rec := &effRec{lg: []int{}}
+	rec := &effRec{lg: []int{}, pulled: -1}
 	deadline(out, caseDeadline, func() {
 		defer func() {
 			if r := recover(); r != nil {
@@ -194,7 +221,7 @@ func effRun(out *Out, monad string, p *EProg) {
 		default:
 			fatal("effect: unknown monad", monad)
 		}
-		out.Ev("Run", "ok", ok, "v", tv(v), "err", e, "log", rec.lg)
+		out.Ev("Run", "ok", ok, "v", tv(v), "err", e, "log", rec.lg, "pulled", rec.pulled, "stepcalls", rec.stepCalls())
 	})
 	out.Ev("End")
 }
